@@ -307,6 +307,9 @@ func lexText(l *lexer) stateFn {
 		if ic > -1 && ic < i {                                   // use whichever is lower for future lexing
 			i = ic
 		}
+		if i == -1 && ic > -1 { // no further action, but still a comment to drop
+			i = ic
+		}
 		// if no token is found, skip till the end of template
 		if i == -1 {
 			l.pos = Pos(len(l.input))
